@@ -73,6 +73,9 @@ pub enum SOp {
     /// one all-or-nothing batch: withdraw-address change, a small delegation, then a delegation of more
     /// than the delegator owns: must fail as a whole and leave no trace (neither in storage nor anywhere else)
     Poisoned { d: u32, to: u32, v: u32 },
+    /// the administration function add_validator called again for a validator that already exists: must be
+    /// refused and change nothing
+    DupValidator { v: u32 },
     /// slash by p/1000 (p > 1000 is invalid)
     /// fraction in thousandths; values >= 1_000_000 mean 1 + (p_milli - 1_000_000) * 10^-18
     Slash { v: u32, p_milli: u32 },
@@ -776,6 +779,33 @@ impl Run {
         }
     }
 
+    fn op_dup_validator(&mut self, v: u32) {
+        self.accrue();
+        let vi = v as usize % self.validators.len();
+        let addr = self.validators[vi].clone();
+        let before = self.app.storage().snapshot();
+        let block = self.app.block_info();
+        let app = &mut self.app;
+        let real: RealOut<()> = guarded(|| {
+            app.init_modules(|router, api, storage| {
+                router.staking.inner.add_validator(api, storage, &block, Validator::create(addr, Decimal::percent(7), Decimal::one(), Decimal::one()))
+            })
+        });
+        self.stats.steps += 1;
+        self.stats.fault("duplicate_validator_registration");
+        let what = "registering an existing validator again";
+        match real {
+            RealOut::Panic(p) => self.vall("panic", format!("{}: the simulator panicked: {}", what, p)),
+            RealOut::Ok(()) => self.v(P14, "accepted_but_invalid", format!("{}: accepted", what)),
+            RealOut::Err(_) => {
+                if self.app.storage().snapshot() != before {
+                    self.vall("rejected_with_effect", format!("{}: refused, but the chain state changed (the validator's bookkeeping)", what));
+                }
+                self.check_state(what);
+            }
+        }
+    }
+
     fn op_slash(&mut self, v: u32, p_milli: u32) {
         self.accrue();
         let what = format!("slash validator {} by {}/1000", v, p_milli);
@@ -807,6 +837,19 @@ impl Run {
                 self.m.slashes[vi] += 1;
                 self.stats.fault("slash");
                 let r_num = (1000 - p_milli) as u128;
+                if p_milli == 1000 {
+                    // "p = 1 removes the delegations entirely": the all-delegations listing must not mention the
+                    // slashed validator any more, not even with amount 0
+                    for d in 0..nd {
+                        let listed = self.ask(false, || {
+                            self.app.wrap().query_all_delegations(self.addrs[d].clone()).map(|all| all.iter().any(|x| x.validator == self.validators[vi])).unwrap_or(false)
+                        });
+                        if listed {
+                            self.v(P16, "not_removed", format!("{}: after a full slash the delegations of delegator {} still list the slashed validator", what, d));
+                            return;
+                        }
+                    }
+                }
                 // does any delegation to the slashed validator survive as a shown (whole-token) delegation?
                 let mut any_left = false;
                 for d in 0..nd {
@@ -1019,6 +1062,7 @@ impl Run {
                 let d = *d as usize % self.n_delegators();
                 self.op_poisoned(d, *to, *v)
             }
+            SOp::DupValidator { v } => self.op_dup_validator(*v),
             SOp::Slash { v, p_milli } => self.op_slash(*v, *p_milli),
             SOp::Advance { jump, set, slices } => self.op_advance(jump, *set, *slices),
         }
@@ -1224,6 +1268,7 @@ pub fn execute_case(case: &Case) -> RunResult {
             SOp::Withdraw { .. } => "w",
             SOp::SetWithdraw { .. } => "a",
             SOp::Poisoned { .. } => "p",
+            SOp::DupValidator { .. } => "v",
             SOp::Slash { v, .. } => ["s0", "s1", "s2", "s3", "s4"][(*v as usize).min(4)],
             SOp::Advance { jump, .. } => match jump {
                 Jump::Secs(_) => "t",
@@ -1357,6 +1402,7 @@ impl Engine for StakeSim {
                     SOp::Batch { d, ms: (0..n).map(|_| gen_msg(rng, nv)).collect() }
                 }
                 2 => SOp::Withdraw { d, v: if rng.chance(1, 30) { nv } else { rng.below(nv as u64) as u32 } },
+                3 if rng.chance(1, 6) => SOp::DupValidator { v: rng.below(nv as u64) as u32 },
                 3 if rng.chance(1, 3) => SOp::Poisoned { d, to: rng.below(nd as u64 + 2) as u32, v: rng.below(nv as u64) as u32 },
                 3 => SOp::SetWithdraw { d, to: rng.below(nd as u64 + 2) as u32 },
                 4 => {
